@@ -87,7 +87,7 @@ def case_axisymmetric_energy(ctx):
 
 def case_condensed_vs_explicit(ctx, family, kind):
     m = tiny_mesh(family)
-    R = {"quad4": fem.RegionQuad, "hex8": fem.RegionHexahedron}[family]
+    R = {"quad4": fem.RegionQuad, "quad8": fem.RegionQuadraticQuad, "quad9": fem.RegionBiQuadraticQuad, "hex8": fem.RegionHexahedron, "hex20": fem.RegionQuadraticHexahedron}[family]
     region = R(m)
     if kind == "PlaneStrain":
         fu = fem.FieldContainer([fem.FieldPlaneStrain(region, dim=2)])
@@ -95,6 +95,12 @@ def case_condensed_vs_explicit(ctx, family, kind):
     else:
         fu = fem.FieldContainer([fem.Field(region, dim=m.dim)])
         fm = fem.FieldsMixed(region, n=3)
+    # the explicit formulation the condensed body is compared with has CELL-WISE CONSTANT p and J (one value per cell)
+    constant = family not in ("quad9",)  # (bi-quadratic / tri-quadratic templates pair with linear dual fields by design)
+    ok_dual = all(np.asarray(f_.values).shape[0] == m.ncells and np.asarray(f_.region.h).shape[0] == 1 for f_ in fm.fields[1:])
+    ctx.check_concrete("dual_fields_are_cell_wise_constant", ok_dual or not constant, "values per dual field: %s" % [np.asarray(f_.values).shape for f_ in fm.fields[1:]])
+    if not ok_dual:
+        return
     x = unknowns(ctx, fu)
     install(ctx, fu, x)
     base = AbstractHyperelastic(ctx, 3)
@@ -217,11 +223,13 @@ def cases(tier):
         ("plane_strain_vs_slab", case_plane_strain_vs_slab, {"family": "quad4", "max_paths": 8}),
         ("axisymmetric_energy", case_axisymmetric_energy, {}),
         ("condensed_vs_explicit", case_condensed_vs_explicit, {"family": "quad4", "kind": "PlaneStrain"}),
+        ("condensed_vs_explicit", case_condensed_vs_explicit, {"family": "quad8", "kind": "PlaneStrain"}),
         ("uniform", case_uniform, {"dim": 2, "max_paths": 8}),
         ("condensed_vs_threefield", case_condensed_vs_threefield, {"family": "quad4", "params": 1}),
     ]
     if tier == "thorough":
         out.append(("condensed_vs_threefield", case_condensed_vs_threefield, {"family": "quad4", "params": 2}))
         out.append(("condensed_vs_explicit", case_condensed_vs_explicit, {"family": "hex8", "kind": "Field"}))
+        out.append(("condensed_vs_explicit", case_condensed_vs_explicit, {"family": "hex20", "kind": "Field"}))
         out.append(("uniform", case_uniform, {"dim": 3, "max_paths": 8}))
     return out
